@@ -504,3 +504,20 @@ Lemma tasks_wiring :
   Gen_md_cifar100.cifar_model_sample_shape =
     [1; Gen_ds_cifar100_defaults.cifar_default_crop_height; Gen_ds_cifar100_defaults.cifar_default_crop_width; 3].
 Proof. vm_compute. repeat split; discriminate. Qed.
+
+(* ---------- per-example training loss: a row's loss does not depend on the other rows ---------- *)
+Lemma lm_loss_row_independent tail pad el (pre post : list (list Q * list Z)) r :
+  nth_error (lm_batch_loss tail pad el (pre ++ r :: post)) (length pre) = Some (lm_row_loss tail pad el r) /\
+  lm_batch_loss tail pad el [r] = [lm_row_loss tail pad el r] /\
+  length (lm_batch_loss tail pad el (pre ++ r :: post)) = length (pre ++ r :: post).
+Proof.
+  unfold lm_batch_loss. repeat split.
+  - rewrite map_app. cbn [map]. rewrite nth_error_app2 by (rewrite map_length; lia).
+    rewrite map_length, Nat.sub_diag. reflexivity.
+  - apply map_length.
+Qed.
+
+(* padded positions contribute nothing, whatever the logits there *)
+Lemma mask_row_ignores_pad pad l l' y ls ys : y = pad ->
+  mask_row pad (l :: ls) (y :: ys) = mask_row pad (l' :: ls) (y :: ys).
+Proof. intros ->. cbn [mask_row]. now rewrite Z.eqb_refl. Qed.
